@@ -28,6 +28,79 @@ func expandFor(xs []*SExp) []*SExp {
 	return out
 }
 
+type lemmaParts struct {
+	name     string
+	uses     []string
+	vars     []string
+	sorts    map[string]*Sort
+	assumes  []*SExp
+	unfolds  []*SExp
+	goals    []*Clause
+	conclude *SExp
+	induct   string
+	lo       *SExp
+	lets     [][2]*SExp
+}
+
+func (p *Prog) parseLemma(l *LemmaDecl) (*lemmaParts, error) {
+	lp := &lemmaParts{name: l.X.List[1].Atom, sorts: map[string]*Sort{}}
+	for _, c := range expandFor(l.X.List[2:]) {
+		args := c.List[1:]
+		switch c.Head() {
+		case "uses":
+			for _, a := range args {
+				lp.uses = append(lp.uses, a.Atom)
+			}
+		case "vars":
+			for _, b := range args {
+				s, err := p.parseSort(b.List[1])
+				if err != nil {
+					return nil, err
+				}
+				lp.vars = append(lp.vars, b.List[0].Atom)
+				lp.sorts[b.List[0].Atom] = s
+			}
+		case "let":
+			lp.lets = append(lp.lets, [2]*SExp{args[0], args[1]})
+		case "assume":
+			lp.assumes = append(lp.assumes, args[0])
+		case "unfold":
+			lp.unfolds = append(lp.unfolds, expandFor(args)...)
+		case "goal":
+			lp.goals = append(lp.goals, &Clause{Label: args[0].Atom, X: args[1]})
+		case "conclude":
+			lp.conclude = args[0]
+		case "induct":
+			lp.induct = args[0].Atom
+			lp.lo = args[1]
+		default:
+			return nil, fmt.Errorf("lemma %s: unknown clause %s", lp.name, c.Head())
+		}
+	}
+	return lp, nil
+}
+
+// lemmaInstance builds hypotheses, unfold instances and the conclusion under a variable binding.
+func (p *Prog) lemmaInstance(lp *lemmaParts, bind map[string]Val, st *State) (hyps []*Term, unf []*Term, concl *Term) {
+	env := &Env{st: st, old: st, vars: map[string]Val{}}
+	for k, v := range bind {
+		env.vars[k] = v
+	}
+	for _, l := range lp.lets {
+		env.vars[l[0].Atom] = p.elab(nil, l[1], env)
+	}
+	for _, a := range lp.assumes {
+		hyps = append(hyps, p.elabT(nil, a, env))
+	}
+	for _, u := range lp.unfolds {
+		unf = append(unf, p.unfoldInstance(nil, u, env))
+	}
+	if lp.conclude != nil {
+		concl = p.elabT(nil, lp.conclude, env)
+	}
+	return
+}
+
 // elabLemma turns a (lemma ...) declaration into obligations over spec functions only.
 func (p *Prog) elabLemma(l *LemmaDecl) (obs []*Obligation, err error) {
 	defer func() {
@@ -39,52 +112,101 @@ func (p *Prog) elabLemma(l *LemmaDecl) (obs []*Obligation, err error) {
 			panic(r)
 		}
 	}()
-	name := l.X.List[1].Atom
-	st := &State{PC: True(), Locals: map[int]*LObj{}, Escaped: map[int]bool{}, Ghost: map[string]*Term{}}
-	env := &Env{st: st, old: st, vars: map[string]Val{}}
-	var uses []string
-	var assume []*Term
-	type goal struct {
-		label string
-		t     *Term
+	lp, err := p.parseLemma(l)
+	if err != nil {
+		return nil, err
 	}
-	var goals []goal
-	for _, c := range expandFor(l.X.List[2:]) {
-		args := c.List[1:]
-		switch c.Head() {
-		case "uses":
-			for _, a := range args {
-				uses = append(uses, a.Atom)
-			}
-		case "vars":
-			for _, b := range args {
-				s, err := p.parseSort(b.List[1])
-				if err != nil {
-					return nil, err
-				}
-				env.vars[b.List[0].Atom] = tv(Sym("lv."+b.List[0].Atom, s))
-			}
-		case "let":
-			env.vars[args[0].Atom] = p.elab(nil, args[1], env)
-		case "assume":
-			assume = append(assume, p.elabT(nil, args[0], env))
-		case "unfold":
-			for _, a := range expandFor(args) {
-				assume = append(assume, p.unfoldInstance(nil, a, env))
-			}
-		case "goal":
-			goals = append(goals, goal{args[0].Atom, p.elabT(nil, args[1], env)})
-		default:
-			return nil, fmt.Errorf("lemma %s: unknown clause %s", name, c.Head())
+	name := lp.name
+	st := &State{PC: True(), Locals: map[int]*LObj{}, Escaped: map[int]bool{}, Ghost: map[string]*Term{}}
+	bind := map[string]Val{}
+	for _, v := range lp.vars {
+		bind[v] = tv(Sym("lv."+v, lp.sorts[v]))
+	}
+	mk := func(label string, assume []*Term, goal *Term, mustFail bool) {
+		kind := "lemma"
+		if mustFail {
+			kind = "canary"
+		}
+		obs = append(obs, &Obligation{Name: "lemma#" + name + "#" + label, Kind: kind, Func: "lemma " + name,
+			Assume: assume, PC: True(), Goal: goal, Pos: shortFile(l.File), Uses: lp.uses, MustFail: mustFail})
+	}
+	if lp.induct == "" {
+		hyps, unf, concl := p.lemmaInstance(lp, bind, st)
+		assume := append(append([]*Term{}, hyps...), unf...)
+		env := &Env{st: st, old: st, vars: bind}
+		for _, lt := range lp.lets {
+			env.vars[lt[0].Atom] = p.elab(nil, lt[1], env)
+		}
+		for _, g := range lp.goals {
+			mk(g.Label, assume, p.elabT(nil, g.X, env), false)
+		}
+		if concl != nil {
+			mk("conclude", assume, concl, false)
+		}
+		mk("canary", assume, False(), true)
+		return obs, nil
+	}
+	// induction on a B64 variable from lo upwards
+	n := bind[lp.induct].L[0]
+	loT := p.elabT(nil, lp.lo, &Env{st: st, old: st, vars: bind})
+	loT = coerceTo(loT, n.S)
+	bBase := map[string]Val{}
+	bNext := map[string]Val{}
+	for k, v := range bind {
+		bBase[k], bNext[k] = v, v
+	}
+	bBase[lp.induct] = tv(loT)
+	bNext[lp.induct] = tv(BVOp("bvadd", n, BVConst(1, n.S.W)))
+	hB, uB, cB := p.lemmaInstance(lp, bBase, st)
+	mk("base", append(append([]*Term{}, hB...), uB...), cB, false)
+	hN, uN, cN := p.lemmaInstance(lp, bind, st)
+	hS, uS, cS := p.lemmaInstance(lp, bNext, st)
+	var assume []*Term
+	assume = append(assume, hS...)
+	assume = append(assume, uN...)
+	assume = append(assume, uS...)
+	assume = append(assume, Implies(And(hN...), cN))
+	assume = append(assume, BVOp("bvule", loT, n), Not(Eq(bNext[lp.induct].L[0], BVConst(0, n.S.W))))
+	mk("step", assume, cS, false)
+	mk("canary", assume, False(), true)
+	return obs, nil
+}
+
+// applyLemma instantiates a lemma's statement (hypotheses => conclusion) for use as an assumption.
+// Variables not bound by the caller stay universally quantified.
+func (p *Prog) applyLemma(fx *Fx, x *SExp, env *Env) *Term {
+	name := x.List[1].Atom
+	var decl *LemmaDecl
+	for _, l := range p.Lemmas {
+		if l.X.List[1].Atom == name {
+			decl = l
 		}
 	}
-	for _, g := range goals {
-		obs = append(obs, &Obligation{Name: "lemma#" + name + "#" + g.label, Kind: "lemma", Func: "lemma " + name,
-			Assume: assume, PC: True(), Goal: g.t, Pos: shortFile(l.File), Uses: uses})
+	if decl == nil {
+		efail("apply-lemma: unknown lemma %s", name)
 	}
-	if len(goals) > 0 {
-		obs = append(obs, &Obligation{Name: "lemma#" + name + "#canary", Kind: "canary", Func: "lemma " + name,
-			Assume: assume, PC: True(), Goal: False(), Pos: shortFile(l.File), Uses: uses, MustFail: true})
+	lp, err := p.parseLemma(decl)
+	if err != nil {
+		efail("%v", err)
 	}
-	return obs, nil
+	if lp.conclude == nil {
+		efail("apply-lemma: lemma %s has no (conclude ...)", name)
+	}
+	bind := map[string]Val{}
+	for _, b := range x.List[2:] {
+		bind[b.List[0].Atom] = tv(coerceTo(p.elabT(fx, b.List[1], env), lp.sorts[b.List[0].Atom]))
+	}
+	var bs []*Term
+	for _, v := range lp.vars {
+		if _, ok := bind[v]; !ok {
+			bt := Bound("q!"+name+"!"+v, lp.sorts[v])
+			bs = append(bs, bt)
+			bind[v] = tv(bt)
+		}
+	}
+	hyps, _, concl := p.lemmaInstance(lp, bind, env.st)
+	if fx != nil {
+		fx.LemmasUsed[name] = true
+	}
+	return Forall(bs, Implies(And(hyps...), concl))
 }
